@@ -41,7 +41,7 @@ def bounds(tier, seed):
         "levels": ["steps (SVBackend._run_from_sequence_data)", "evolve (one EvolveStateVector step, input state differentiable)", "pulser (SVBackend(seq).run())"],
         "N": [1, 2] + ([3] if tier == "thorough" else []),
         "step_values": ["generic", "phi=0", "Omega=0 on one atom", "equal neighbouring steps", "zero interaction"],
-        "pulser_sequences": ["const+ramp", "blackman+const", "ramp-to-zero+const", "two pulses with phases"],
+        "pulser_sequences": ["const+ramp", "blackman+const", "blackman of odd duration (symmetric peak on a sample)", "ramp-to-zero+const", "two pulses with phases"],
         "losses": LOSSES,
     }
 
@@ -54,7 +54,7 @@ def cases(tier, seed):
         for vals in ("generic", "phi0", "omega0", "nointer"):
             for loss in ("overlap", "occupation"):
                 yield {"level": "evolve", "n": n, "values": vals, "loss": loss, "seed": seed}
-        for kind in ("const_ramp", "blackman", "ramp_zero", "two_pulses"):
+        for kind in ("const_ramp", "blackman", "blackman_odd", "ramp_zero", "two_pulses"):
             for loss in LOSSES:
                 yield {"level": "pulser", "n": n, "values": kind, "loss": loss, "seed": seed}
 
@@ -196,6 +196,9 @@ def _pulser_seq(params, case):
         seq.add(Pulse(ConstantWaveform(40, p[0]), RampWaveform(40, p[1], p[2]), p[3]), "ch")
     elif kind == "blackman":
         seq.add(Pulse(BlackmanWaveform(40, p[0]), ConstantWaveform(40, p[1]), p[3]), "ch")
+    elif kind == "blackman_odd":
+        # odd duration: the samples have an exactly symmetric peak y[i-1] == y[i+1] != y[i]
+        seq.add(Pulse(BlackmanWaveform(41, p[0]), ConstantWaveform(41, p[1]), p[3]), "ch")
     elif kind == "ramp_zero":
         seq.add(Pulse(RampWaveform(40, p[0], 0.0), ConstantWaveform(40, p[1]), 0.0), "ch")
     else:
@@ -218,7 +221,7 @@ def _pulser_forward(params, case):
 def _pulser_params(case):
     import torch
 
-    base = {"const_ramp": [5.0, -3.0, 4.0, 0.4, 0.0], "blackman": [1.6, 2.0, 0.0, 0.3, 0.0], "ramp_zero": [8.0, -2.0, 0.0, 0.0, 0.0], "two_pulses": [6.0, 1.5, 3.0, 0.7, -2.5]}[case["values"]]
+    base = {"const_ramp": [5.0, -3.0, 4.0, 0.4, 0.0], "blackman": [1.6, 2.0, 0.0, 0.3, 0.0], "blackman_odd": [1.6, 2.0, 0.0, 0.3, 0.0], "ramp_zero": [8.0, -2.0, 0.0, 0.0, 0.0], "two_pulses": [6.0, 1.5, 3.0, 0.7, -2.5]}[case["values"]]
     return {"p": torch.tensor(base, dtype=torch.float64)}
 
 
@@ -275,7 +278,7 @@ def _dense_last_H(case, params):
 
     seq = _pulser_seq({"p": [float(x) for x in params["p"]]}, case)
     T = seq.get_duration()
-    times = [10.0 * k for k in range(T // 10 + 1)]
+    times = [10.0 * k for k in range(T // 10 + 1)] + ([float(T)] if T % 10 else [])
     om, de, ph = R.midpoint_drive(seq, False, times, list(seq.register.qubit_ids))
     return dense_hamiltonian(om[-1], de[-1], ph[-1], R.interaction(seq, "rydberg"))
 
@@ -286,7 +289,7 @@ def run_case(case):
     fwd = {"steps": _steps_forward, "evolve": _evolve_forward, "pulser": _pulser_forward}[case["level"]]
     params = _pulser_params(case) if case["level"] == "pulser" else _steps_params(case)
     label = " ".join(f"{k}={v}" for k, v in case.items() if k != "seed")
-    used = {"const_ramp": [0, 1, 2, 3], "blackman": [0, 1, 3], "ramp_zero": [0, 1], "two_pulses": [0, 1, 2, 3, 4]}
+    used = {"const_ramp": [0, 1, 2, 3], "blackman": [0, 1, 3], "blackman_odd": [0, 1, 3], "ramp_zero": [0, 1], "two_pulses": [0, 1, 2, 3, 4]}
     leaves = {k: v.clone().requires_grad_(True) for k, v in params.items()}
     transitions = 0
     try:
